@@ -277,6 +277,16 @@ theorem run_length (s : St) (tss : List Int) : (run s tss).length = tss.length :
   | nil => rfl
   | cons t rest ih => simp only [run, List.length_cons, ih]
 
+/-- **C19.rate_bound**: the long-run reading of the property. If `k + 2` releases of a history of a
+fresh policer all fall inside a time window of length `W`, then `k·δ < W`: a window of `W` nanoseconds
+holds fewer than `W/δ + 2` releases, whatever the history. -/
+theorem rate_bound (s : St) (tss : List Int) (hd : 0 < s.delta) (h0 : s.prev = none)
+    (ha : AdmissibleFresh s tss) (i k : Nat) (a b W : Int)
+    (hi : (run s tss)[i]? = some a) (hj : (run s tss)[i + 1 + k]? = some b) (hw : b - a ≤ W) :
+    (k : Int) * s.delta < W := by
+  have := window_index s tss hd h0 ha i k a b hi hj
+  omega
+
 /-- **C19.ctor**: non-positive rates and rates above 10^9 (interval truncates to 0) are
 refused; every constructed policer has a positive interval and no history. -/
 theorem ctor_refuses (pos : Bool) (q : Int) (hq : 0 ≤ q) :
